@@ -228,6 +228,25 @@ class C01(E1Check):
                     return _Awaitable(inner(args))
             return cb
 
+        # ONE decorated generator function serves every "gen" registration of the program (as a component class whose
+        # start() is a @context_teardown generator serves all its instances): each call must keep its own generator
+        @context_teardown
+        async def genfn(label: str, spec: dict) -> Any:
+            log("gen-setup", label)
+            exc = yield
+            cb_body_sync(label, spec, (exc,))
+            try:
+                if spec["mode"] == "async":
+                    await env.gate("cb" + label)
+                finish(label, spec)
+            except BaseException as e:
+                st["L"].append(e)
+                log("cb!", label, type(e).__name__)
+                raise
+            finally:
+                log("cb-", label)
+                st["ended"].append(label)
+
         async def register(i: int, spec: dict, ctx: Any) -> None:
             label = str(i)
             route = spec["route"]
@@ -238,24 +257,7 @@ class C01(E1Check):
             elif route == "res":
                 ctx.add_resource(object(), "r" + label, teardown_callback=make_cb(label, spec))
             else:
-                @context_teardown
-                async def genfn() -> Any:
-                    log("gen-setup", label)
-                    exc = yield
-                    cb_body_sync(label, spec, (exc,))
-                    try:
-                        if spec["mode"] == "async":
-                            await env.gate("cb" + label)
-                        finish(label, spec)
-                    except BaseException as e:
-                        st["L"].append(e)
-                        log("cb!", label, type(e).__name__)
-                        raise
-                    finally:
-                        log("cb-", label)
-                        st["ended"].append(label)
-
-                await genfn()
+                await genfn(label, spec)
             st["model"].append(label)
             log("reg", label)
 
